@@ -128,10 +128,10 @@ def snapshot(d):
     return out
 
 
-def run_xz(xz, args, cwd, feed_fifo=None, feed=b"", **kw):
+def run_xz(xz, args, cwd, feed_fifo=None, feed=b"", extra_env=None, **kw):
     """returns (rc, stdout, stderr); rc None = timed out"""
     p = subprocess.Popen([xz] + args, cwd=cwd, stdin=subprocess.DEVNULL, stdout=subprocess.PIPE, stderr=subprocess.PIPE,
-                         env={"PATH": "/usr/bin:/bin", "LC_ALL": "C"}, **kw)
+                         env=dict({"PATH": "/usr/bin:/bin", "LC_ALL": "C"}, **(extra_env or {})), **kw)
     if feed_fifo:
         # play the writer of the FIFO: possible only once xz has opened the read side
         t_end = time.time() + TIMEOUT_S
@@ -184,11 +184,17 @@ def case_name(c, xz, sd, res, verbose=False):
     name, fmt, custom = c["name"], c["fmt"], c["custom"]
     rel = ("d/" if c.get("dir") else "") + name
     arg = "./" + rel if rel == "-" else rel          # a lone "-" would mean standard input
-    opts = ["-F", fmt] + (["--suffix=" + custom] if custom else [])
+    via = c.get("via", "arg")          # where the custom suffix comes from: command line, or the XZ_OPT / XZ_DEFAULTS environment variables
+    opts = ["-F", fmt] + (["--suffix=" + custom] if custom and via == "arg" else [])
+    envx = {via: "--suffix=" + custom} if custom and via != "arg" else None
     rj = json.dumps(c)
+    _run = globals()["run_xz"]
+
+    def run_xz(xz_, args_, cwd_):
+        return _run(xz_, args_, cwd_, extra_env=envx)
 
     def fail(key, text):
-        res.fails.append((key, f"{text} [xz {' '.join(opts)} -- {arg}]", rj))
+        res.fails.append((key, f"{text} [{via + '=--suffix=' + custom + ' ' if envx else ''}xz {' '.join(opts)} -- {arg}]", rj))
 
     def fresh(tag, content):
         d = os.path.join(sd, tag); os.makedirs(os.path.join(d, "d") if c.get("dir") else d)
@@ -607,6 +613,14 @@ def grid_names(tier):
                 cases.append({"t": "name", "name": name, "fmt": fmt, "custom": cu, "dir": True})
                 if len(name) > 3 or "s" in name:
                     cases.append({"t": "name", "name": name, "fmt": fmt, "custom": cu})
+    # the same custom suffixes supplied through the environment instead of the command line
+    envnames = ["a", "a.s", "as", "s", ".s", "a.xz", "a.tlz", "a.txz", "a.tar", "a.lzma", "-a", "a.s.s"] + ([] if tier == "quick" else [n for n in all_names(2) if n not in (".", "..")])
+    for name in envnames:
+        for fmt in ("xz", "lzma", "raw"):
+            for cu in CUSTOMS:
+                if cu:
+                    for via in ("XZ_OPT", "XZ_DEFAULTS"):
+                        cases.append({"t": "name", "name": name, "fmt": fmt, "custom": cu, "via": via})
     return cases
 
 
